@@ -425,7 +425,7 @@ class Differ:
 
     def diff(self, left=None, right=None):
         # Make sure the matching is done first, diff() needs the l2r/r2l maps.
-        if not self._matches:
+        if left is not None or right is not None or not self._matches:
             self.match(left, right)
 
         # First, deal with namespaces:
